@@ -11,7 +11,8 @@ DtlsSim::DtlsSim(const Plan &p) : plan(p) {
         if (op.k == "fate") { DgFate f; f.kind = (int) op.b; f.a = op.c; fates[(int) op.a] = f; }
     }
 }
-DtlsSim::~DtlsSim() {}
+DtlsSim::~DtlsSim() { vsim_probe_set(nullptr, nullptr); }
+static void dtls_probe_cb(const vsim_probe_t *p, void *arg) { ((DtlsSim *) arg)->audit.on_probe(p); }
 
 std::string DtlsSim::record_kind(const Record &r) {
     if (r.type == 20) { return "ccs"; }
@@ -34,6 +35,8 @@ bool DtlsSim::start() {
         w.close_sessions();
     }
     if (!w.connect(plan.get("resume") != 0)) { setup_failed = true; setup_detail = "connect failed"; return false; }
+    audit.add_session(w.cli->ssl, vsim_sizeof_ssl(), w.cli->node, true); audit.add_session(w.srv->ssl, vsim_sizeof_ssl(), w.srv->node, true);
+    vsim_probe_set(dtls_probe_cb, this);
     now = 0;
     flush(0);
     arm_timer(0);
@@ -55,6 +58,7 @@ void DtlsSim::flush(int role) {
         Bytes d = e.pull();
         if (d.empty()) { break; }
         DtlsSentDg s; s.dir = dir; s.emit_index = emit_count++; s.data = d; s.at = now; s.handshake_phase = !e.complete; s.recs = split_records(d, true);
+        { uint32_t suite = e.negotiated_suite(); if (suite && !suite_is_aead((uint16_t) suite)) { for (auto &r : s.recs) { if (r.epoch > 0 && r.type != 20) { audit.on_wire_cbc_record(e.ssl, r.raw.data() + r.hdr, r.body_len(), true); } } } }
         if (complete_event[role] >= 0 && events_run > complete_event[role]) { for (auto &r : s.recs) { if (r.type == 20 || r.type == 22) { post_completion_resend = true; counters["probe.final_flight_resent_after_completion"]++; break; } } }
         emitted.push_back(s);
         DgFate f; auto it = fates.find(s.emit_index);
@@ -159,4 +163,43 @@ uint64_t DtlsSim::fingerprint() {
     for (auto &s : emitted) { f.add(s.data.data(), s.data.size()); f.add((uint64_t) s.at); }
     f.add((uint64_t) complete_time[0]); f.add((uint64_t) complete_time[1]);
     return f.value();
+}
+
+static const int64_t HEAL_BUDGET_MS_ = 600000;
+static const int MAX_EVENTS_ = 4000;
+
+bool DtlsSim::run_plan(bool with_probes, size_t *probe_before) {
+    for (auto &op : plan.ops) { if (op.k == "hreplay") { schedule_replay(op.a, (int) op.b); } }
+    for (int guard = 0; guard < 2000; guard++) {
+        bool both = ep(0).complete && ep(1).complete;
+        if (both || event_cap_hit) { break; }
+        if (ep(0).is_dead() || ep(1).is_dead()) { break; }
+        if (now > last_fault_time + HEAL_BUDGET_MS_) { break; }
+        if (q.empty()) { break; }
+        run_until(now + 2000, MAX_EVENTS_);
+    }
+    bool both = ep(0).complete && ep(1).complete;
+    if (!both) { return false; }
+    int64_t t0 = now + 50;
+    hs_dgrams = emitted.size();
+    for (auto &op : plan.ops) { if (op.k == "afate") { DgFate f; f.kind = (int) op.b; f.a = op.c; fates[(int) hs_dgrams + (int) op.a] = f; } }
+    for (auto &op : plan.ops) {
+        if (op.k == "app") { size_t cap = (size_t) (pmtu / 2 - 40); schedule_app_send(t0 + op.a, (int) (op.b & 1), 1 + (size_t) op.c % cap); }   // one record per datagram: stay well inside the PMTU
+        else if (op.k == "areplay") {
+            // c: 0 any datagram so far, 1 application-phase datagrams, 2 handshake-phase datagrams (incl. the Finished flights)
+            int idx = (int) op.b;
+            if (op.c == 2) { idx = hs_dgrams ? (int) ((uint64_t) op.b % hs_dgrams) : 0; }
+            else if (op.c == 1) { idx = (int) hs_dgrams + (int) ((uint64_t) op.b % 8); }
+            schedule_replay(t0 + op.a, idx);
+        }
+    }
+    run_until(t0 + 1500 + 5000, MAX_EVENTS_);   // longer than any injected delay
+    dead_after_app = ep(0).is_dead() || ep(1).is_dead();
+    if (probe_before) { probe_before[0] = ep(0).delivered.size(); probe_before[1] = ep(1).delivered.size(); }
+    if (with_probes && !dead_after_app) {
+        faults_enabled = false;
+        schedule_app_send(now + 10, 0, 33); schedule_app_send(now + 20, 1, 34);
+        run_until(now + 6000, MAX_EVENTS_);
+    }
+    return true;
 }
